@@ -1,17 +1,422 @@
-//! module `raw` — streams `raw.*` (not built yet).
+//! module `raw` (serves C11) — raw load/store and iteration round-trip in both data orders.
+//!
+//! Streams (every result line is compared with the Lean model `EG.Model.Raw`):
+//!   raw.store <bits> <order 0|1> <bytes> <index> <value>
+//!        -> `<ok|err> <bytes after> <load of every index 0 ..= pixel_count+1 after the store>`
+//!   raw.load  <bits> <order> <bytes> <index>          -> `<value|none>`
+//!   raw.iter  <bits> <order> <bytes> <script>          script item: -1 = next(), k >= 0 = nth(k)
+//!        -> `<lo>,<hi>,<item|none>;...` (size_hint before each step, then the step's result)
+//!           ` end=<lo>,<hi> rest=<items a for loop still sees>`
+//!   order 0 = LittleEndianMsb0, 1 = BigEndianLsb0; <bytes> = comma list or `-`.
+//!
+//! Oracle (the property text as predicates on the real results, against an independent reference
+//! that places every single bit by the documented layout, `ref_bit`):
+//!   Lean statements mirrored: `load_store_same`, `load_store_other`, `store_touches_only`,
+//!   `store_oob`, `load_oob`, `layout_bit`, `iter_toList`, `iter_nth`, `size_hint_exact`.
 use crate::common::*;
+use embedded_graphics::{iterator::raw::RawDataSlice, pixelcolor::raw::*};
 
 pub struct M;
+
+const DEPTHS: [u32; 7] = [1, 2, 4, 8, 16, 24, 32];
+
+macro_rules! dispatch {
+    ($bits:expr, $ord:expr, $f:ident ( $($a:expr),* )) => {
+        match ($bits, $ord) {
+            (1, 0) => $f::<RawU1, LittleEndianMsb0>($($a),*),
+            (1, _) => $f::<RawU1, BigEndianLsb0>($($a),*),
+            (2, 0) => $f::<RawU2, LittleEndianMsb0>($($a),*),
+            (2, _) => $f::<RawU2, BigEndianLsb0>($($a),*),
+            (4, 0) => $f::<RawU4, LittleEndianMsb0>($($a),*),
+            (4, _) => $f::<RawU4, BigEndianLsb0>($($a),*),
+            (8, 0) => $f::<RawU8, LittleEndianMsb0>($($a),*),
+            (8, _) => $f::<RawU8, BigEndianLsb0>($($a),*),
+            (16, 0) => $f::<RawU16, LittleEndianMsb0>($($a),*),
+            (16, _) => $f::<RawU16, BigEndianLsb0>($($a),*),
+            (24, 0) => $f::<RawU24, LittleEndianMsb0>($($a),*),
+            (24, _) => $f::<RawU24, BigEndianLsb0>($($a),*),
+            (32, 0) => $f::<RawU32, LittleEndianMsb0>($($a),*),
+            (32, _) => $f::<RawU32, BigEndianLsb0>($($a),*),
+            _ => panic!("bad depth"),
+        }
+    };
+}
+
+fn real_load<R: RawData, O: DataOrder>(buf: &[u8], i: usize) -> Option<u32>
+where
+    R::Storage: Into<u32>,
+{
+    R::load::<O>(buf, i).map(|r| r.into_inner().into())
+}
+
+fn real_store<R: RawData, O: DataOrder>(buf: &mut [u8], i: usize, v: u32) -> bool
+where
+    R::Storage: Into<u32>,
+{
+    R::from_u32(v).store::<O>(buf, i).is_ok()
+}
+
+/// runs an iterator script on the real `RawDataIterator`; returns per step (size_hint before, result),
+/// the size_hint after the script and the items a `for` loop still sees.
+#[allow(clippy::type_complexity)]
+fn real_iter<R: RawData, O: DataOrder>(
+    buf: &[u8],
+    script: &[i64],
+) -> (Vec<((usize, Option<usize>), Option<u32>)>, (usize, Option<usize>), Vec<u32>)
+where
+    R::Storage: Into<u32>,
+{
+    let mut it = RawDataSlice::<R, O>::new(buf).into_iter();
+    let mut steps = Vec::new();
+    for &k in script {
+        let h = it.size_hint();
+        let r = if k < 0 { it.next() } else { it.nth(k as usize) };
+        steps.push((h, r.map(|r| r.into_inner().into())));
+    }
+    let end = it.size_hint();
+    let mut rest = Vec::new();
+    for r in it {
+        rest.push(r.into_inner().into());
+        if rest.len() > 8 * buf.len() + 8 {
+            break; // runaway guard (reported by the oracle as a length mismatch)
+        }
+    }
+    (steps, end, rest)
+}
+
+// ---------------------------------------------------------------------------------------------
+// Independent reference: the documented layout, one bit at a time.
+// ---------------------------------------------------------------------------------------------
+
+/// number of whole pixels in `len` bytes
+fn pixel_count(bits: u32, len: usize) -> usize {
+    len * 8 / bits as usize
+}
+
+/// `(byte index, bit position inside that byte, 0 = least significant)` of bit `k` of pixel `i`.
+/// LittleEndianMsb0: multi-byte pixels least significant byte first; sub-byte pixels packed from
+/// the most significant bits of each byte downwards. BigEndianLsb0: most significant byte first;
+/// sub-byte pixels packed from the least significant bits upwards.
+fn ref_bit(bits: u32, order: u32, i: usize, k: u32) -> (usize, u32) {
+    if bits < 8 {
+        let ppb = (8 / bits) as usize;
+        let slot = (i % ppb) as u32;
+        let base = if order == 0 { 8 - bits * (slot + 1) } else { bits * slot };
+        (i / ppb, base + k)
+    } else {
+        let n = (bits / 8) as usize;
+        let j = (k / 8) as usize;
+        let off = if order == 0 { j } else { n - 1 - j };
+        (i * n + off, k % 8)
+    }
+}
+
+fn ref_fits(bits: u32, len: usize, i: usize) -> bool {
+    (i as u128 + 1) * bits as u128 <= 8 * len as u128
+}
+
+fn ref_load(bits: u32, order: u32, buf: &[u8], i: usize) -> Option<u32> {
+    if !ref_fits(bits, buf.len(), i) {
+        return None;
+    }
+    let mut v = 0u32;
+    for k in 0..bits {
+        let (b, p) = ref_bit(bits, order, i, k);
+        v |= (((buf[b] >> p) & 1) as u32) << k;
+    }
+    Some(v)
+}
+
+fn mask(bits: u32) -> u32 {
+    if bits == 32 {
+        u32::MAX
+    } else {
+        (1 << bits) - 1
+    }
+}
+
+fn fmt_opt(v: Option<u32>) -> String {
+    match v {
+        Some(v) => v.to_string(),
+        None => "none".into(),
+    }
+}
+fn fmt_hint(h: (usize, Option<usize>)) -> String {
+    format!("{},{}", h.0, h.1.map(|v| v.to_string()).unwrap_or_else(|| "none".into()))
+}
+fn parse_bytes(t: &mut Toks) -> Vec<u8> {
+    t.u32_list().into_iter().map(|b| b as u8).collect()
+}
+fn parse_script(s: &str) -> Vec<i64> {
+    if s == "-" {
+        vec![]
+    } else {
+        s.split(',').map(|x| x.parse().expect("bad script item")).collect()
+    }
+}
+
+fn background(pattern: u32, len: usize) -> Vec<u8> {
+    (0..len)
+        .map(|j| match pattern {
+            0 => 0x00,
+            1 => 0xFF,
+            _ => ((j as u32 * 0x3B + 0xA5) ^ (j as u32 * j as u32 * 7)) as u8,
+        })
+        .collect()
+}
+
+fn values_for(bits: u32, tier: Tier, rng: &mut Rng, all16: bool) -> Vec<u32> {
+    let m = mask(bits);
+    if bits <= 8 {
+        let mut v: Vec<u32> = (0..=m).collect();
+        // values with bits above the mask: `new` must drop them
+        v.push(m + 1);
+        v.push(0xFFFF_FF00 | (m >> 1));
+        v
+    } else if bits == 16 && all16 {
+        (0..=m).collect()
+    } else {
+        let mut v = vec![0, 1, m, m - 1, m >> 1, (m >> 1) + 1, 0x0102_0304 & m, 0x8040_2010 & m, 0x00FF_00FF & m, 0xFF00_FF00 & m, 0xA5C3_7E18 & m];
+        if bits < 32 {
+            v.push(m + 1); // masked to 0 by `new`
+            v.push(0xFFFF_FFFF);
+        }
+        let n = if tier == Tier::Quick { 64 } else { 512 };
+        for _ in 0..n {
+            v.push((rng.next() as u32) & if rng.chance(1, 8) { u32::MAX } else { m });
+        }
+        v
+    }
+}
 
 impl Module for M {
     fn name(&self) -> &'static str {
         "raw"
     }
     fn rule(&self) -> &'static str {
-        "not built yet"
+        "ops: every depth (1,2,4,8,16,24,32) x both data orders x buffer lengths 0..=L (L=6 quick, 12 thorough) x 3 background \
+         patterns x every pixel index 0..=pixel_count+2 x values (all for <= 8 bit, all 65536 for 16 bit in the thorough tier, \
+         boundary + seeded random above); iterator scripts of next()/nth(k) (all single nth(k) for k to pixel_count+2, then \
+         seeded random scripts). A store op is non-trivial when the index is inside the buffer and the stored value differs \
+         from the value loaded before; an iterator op when the buffer holds at least one pixel; a load op when it is inside. \
+         distinct = distinct op text."
     }
-    fn generate(&self, _pid: &str, _tier: Tier, _rng: &mut Rng, _emit: &mut dyn FnMut(String)) {}
-    fn execute(&self, op: &str, _ctx: &mut Ctx) -> String {
-        panic!("unknown op {}", op)
+
+    fn generate(&self, _pid: &str, tier: Tier, rng: &mut Rng, emit: &mut dyn FnMut(String)) {
+        let max_len: usize = if tier == Tier::Quick { 6 } else { 12 };
+        for &bits in &DEPTHS {
+            for order in 0..2u32 {
+                // --- store / load -------------------------------------------------------------
+                let vals = values_for(bits, tier, rng, false);
+                for len in 0..=max_len {
+                    for pat in 0..3u32 {
+                        let buf = background(pat, len);
+                        let bs = fmt_list(buf.iter());
+                        let count = pixel_count(bits, len);
+                        for i in 0..=count + 2 {
+                            emit(format!("raw.load {} {} {} {}", bits, order, bs, i));
+                            // 8-bit: all 256 values at the first, last and first outside index; a sample elsewhere
+                            let full = bits < 8 || i == 0 || i + 1 >= count && i <= count || len <= 2;
+                            for (vi, v) in vals.iter().enumerate() {
+                                if !full && bits == 8 && vi % 16 != (i + len) % 16 {
+                                    continue;
+                                }
+                                if !full && bits > 8 && vi >= 11 && vi % 4 != (i + len) % 4 {
+                                    continue;
+                                }
+                                emit(format!("raw.store {} {} {} {} {}", bits, order, bs, i, v));
+                            }
+                        }
+                    }
+                }
+                if bits == 16 && tier == Tier::Thorough {
+                    // all 16-bit values, at an inner index of a 7-byte buffer (one excess byte)
+                    let buf = background(2, 7);
+                    let bs = fmt_list(buf.iter());
+                    for v in values_for(16, tier, rng, true) {
+                        emit(format!("raw.store 16 {} {} 1 {}", order, bs, v));
+                    }
+                }
+                // far outside indices
+                for &i in &[1000usize, 1 << 20, 1 << 40] {
+                    let bs = fmt_list(background(2, 5).iter());
+                    emit(format!("raw.load {} {} {} {}", bits, order, bs, i));
+                    emit(format!("raw.store {} {} {} {} 1", bits, order, bs, i));
+                }
+                // --- iterator -----------------------------------------------------------------
+                for len in 0..=max_len {
+                    for pat in 1..3u32 {
+                        let buf = background(pat, len);
+                        let bs = fmt_list(buf.iter());
+                        let count = pixel_count(bits, len);
+                        emit(format!("raw.iter {} {} {} -", bits, order, bs));
+                        // all next(), two more than there are items
+                        let all_next: Vec<i64> = (0..count.min(20) + 2).map(|_| -1).collect();
+                        emit(format!("raw.iter {} {} {} {}", bits, order, bs, fmt_list(all_next.iter())));
+                        if pat == 2 {
+                            for k in 0..=count + 2 {
+                                emit(format!("raw.iter {} {} {} {},-1,-1", bits, order, bs, k));
+                                emit(format!("raw.iter {} {} {} -1,{},-1,0", bits, order, bs, k));
+                            }
+                            emit(format!("raw.iter {} {} {} {},-1,0", bits, order, bs, 1u64 << 40));
+                        }
+                    }
+                }
+                let n_rand = if tier == Tier::Quick { 40 } else { 1000 };
+                for _ in 0..n_rand {
+                    let len = rng.range(0, max_len as i64 + 2) as usize;
+                    let buf: Vec<u8> = (0..len).map(|_| rng.next() as u8).collect();
+                    let count = pixel_count(bits, len) as i64;
+                    let steps = rng.range(1, 10);
+                    let script: Vec<i64> = (0..steps)
+                        .map(|_| if rng.chance(1, 2) { -1 } else { rng.range(0, (count / 2).max(2)) })
+                        .collect();
+                    emit(format!("raw.iter {} {} {} {}", bits, order, fmt_list(buf.iter()), fmt_list(script.iter())));
+                }
+                // random store/load on random buffers
+                let n_rand = if tier == Tier::Quick { 300 } else { 20_000 };
+                for _ in 0..n_rand {
+                    let len = rng.range(0, max_len as i64 + 4) as usize;
+                    let buf: Vec<u8> = (0..len).map(|_| rng.next() as u8).collect();
+                    let count = pixel_count(bits, len) as i64;
+                    let i = rng.range(0, count + 1);
+                    let v = (rng.next() as u32) & if rng.chance(1, 8) { u32::MAX } else { mask(bits) };
+                    emit(format!("raw.store {} {} {} {} {}", bits, order, fmt_list(buf.iter()), i, v));
+                }
+            }
+        }
+    }
+
+    fn execute(&self, op: &str, ctx: &mut Ctx) -> String {
+        let mut t = Toks::new(op);
+        let stream = t.str();
+        let bits = t.u32();
+        let order = t.u32();
+        let buf = parse_bytes(&mut t);
+        let len = buf.len();
+        let count = pixel_count(bits, len);
+        ctx.count(&format!("{}:bits={}:order={}", stream, bits, order));
+        match stream {
+            "raw.load" => {
+                let i = t.usize();
+                let got = dispatch!(bits, order, real_load(&buf, i));
+                let want = ref_load(bits, order, &buf, i);
+                // load_oob / layout: `None` exactly beyond the buffer, otherwise the documented bits
+                ctx.expect(got.is_none() == !ref_fits(bits, len, i), "load-oob-none", || format!("{} got {:?}", op, got));
+                ctx.expect(got == want, "load-layout", || format!("{} got {:?} want {:?}", op, got, want));
+                if got.is_some() {
+                    ctx.nontrivial(op);
+                    ctx.count("load:inside");
+                } else {
+                    ctx.count("load:outside");
+                }
+                fmt_opt(got)
+            }
+            "raw.store" => {
+                let i = t.usize();
+                let v = t.u32();
+                let vm = v & mask(bits);
+                let before = buf.clone();
+                let mut after = buf.clone();
+                let loads_before: Vec<Option<u32>> = (0..count + 2).map(|j| dispatch!(bits, order, real_load(&before, j))).collect();
+                let ok = dispatch!(bits, order, real_store(&mut after, i, v));
+                let loads_after: Vec<Option<u32>> = (0..count + 2).map(|j| dispatch!(bits, order, real_load(&after, j))).collect();
+                let fits = ref_fits(bits, len, i);
+                ctx.count(if fits { "store:inside" } else { "store:outside" });
+                if v != vm {
+                    ctx.count("store:value-above-mask");
+                }
+                // store_oob: an index beyond the buffer returns an error and leaves the buffer unchanged
+                ctx.expect(ok == fits, "store-oob-result", || format!("{} ok={} fits={}", op, ok, fits));
+                if !ok {
+                    ctx.expect(after == before, "store-oob-buffer-changed", || format!("{} after {:?}", op, after));
+                } else if fits {
+                    // load_store_same
+                    let l = dispatch!(bits, order, real_load(&after, i));
+                    ctx.expect(l == Some(vm), "load-store-same", || format!("{} load {:?} want {}", op, l, vm));
+                    // store_touches_only + layout: every bit of the buffer is either bit k of pixel i
+                    // (then it equals bit k of v) or unchanged
+                    let mut own = vec![0u8; len];
+                    for k in 0..bits {
+                        let (b, p) = ref_bit(bits, order, i, k);
+                        own[b] |= 1 << p;
+                        let bit = (after[b] >> p) & 1;
+                        ctx.expect(bit as u32 == (vm >> k) & 1, "store-layout-bit", || {
+                            format!("{} bit {} of the value expected in byte {} position {}", op, k, b, p)
+                        });
+                    }
+                    let foreign = (0..len).all(|b| (before[b] ^ after[b]) & !own[b] == 0);
+                    ctx.expect(foreign, "store-touches-foreign-bits", || format!("{} before {:?} after {:?}", op, before, after));
+                    // load_store_other: every other index loads what it loaded before
+                    let others = (0..count + 2).all(|j| j == i || loads_before[j] == loads_after[j]);
+                    ctx.expect(others, "load-store-other", || format!("{} before {:?} after {:?}", op, loads_before, loads_after));
+                    if loads_before.get(i).copied().flatten() != Some(vm) {
+                        ctx.nontrivial(op);
+                    }
+                }
+                // layout of everything that is loaded afterwards
+                let lay = (0..count + 2).all(|j| loads_after[j] == ref_load(bits, order, &after, j));
+                ctx.expect(lay, "load-layout", || format!("{} loads {:?}", op, loads_after));
+                format!(
+                    "{} {} {}",
+                    if ok { "ok" } else { "err" },
+                    fmt_list(after.iter()),
+                    fmt_list(loads_after.iter().map(|l| fmt_opt(*l)))
+                )
+            }
+            "raw.iter" => {
+                let script = parse_script(t.str());
+                let (steps, end, rest) = dispatch!(bits, order, real_iter(&buf, &script));
+                if count > 0 {
+                    ctx.nontrivial(op);
+                }
+                // reference: position in [load 0, load 1, ...]
+                let items: Vec<u32> = (0..count).map(|j| ref_load(bits, order, &buf, j).unwrap()).collect();
+                let mut pos: usize = 0;
+                for (n, (h, r)) in steps.iter().enumerate() {
+                    let remaining = count.saturating_sub(pos);
+                    // size_hint brackets the number of remaining items
+                    ctx.expect(h.0 <= remaining && h.1.map_or(true, |u| remaining <= u), "size-hint-bracket", || {
+                        format!("{} step {} hint {:?} remaining {}", op, n, h, remaining)
+                    });
+                    if *h == (remaining, Some(remaining)) {
+                        ctx.count("iter:size-hint-exact");
+                    } else {
+                        ctx.count("iter:size-hint-inexact");
+                    }
+                    let k = script[n];
+                    if k >= 0 {
+                        pos = pos.saturating_add(k as usize);
+                        ctx.count("iter:nth");
+                    } else {
+                        ctx.count("iter:next");
+                    }
+                    let want = items.get(pos).copied();
+                    if want.is_some() {
+                        pos += 1;
+                    }
+                    ctx.expect(*r == want, if k >= 0 { "iter-nth" } else { "iter-next" }, || {
+                        format!("{} step {} got {:?} want {:?}", op, n, r, want)
+                    });
+                }
+                let remaining = count.saturating_sub(pos);
+                ctx.expect(end.0 <= remaining && end.1.map_or(true, |u| remaining <= u), "size-hint-bracket", || {
+                    format!("{} end hint {:?} remaining {}", op, end, remaining)
+                });
+                let want_rest: &[u32] = if pos < count { &items[pos..] } else { &[] };
+                ctx.expect(rest == want_rest, "iter-items", || format!("{} rest {:?} want {:?}", op, rest, want_rest));
+                format!(
+                    "{} end={} rest={}",
+                    if steps.is_empty() {
+                        "-".to_string()
+                    } else {
+                        steps.iter().map(|(h, r)| format!("{},{}", fmt_hint(*h), fmt_opt(*r))).collect::<Vec<_>>().join(";")
+                    },
+                    fmt_hint(end),
+                    fmt_list(rest.iter())
+                )
+            }
+            _ => panic!("unknown op {}", op),
+        }
     }
 }
